@@ -861,12 +861,9 @@ Example C14_ex_anchor_call_ok_op_matches_cell_inv :
   cell_inv (exInit true) (ginit (exInit true)) /\
   ~ cell_inv (exInit true) (mkG (fun _ => mock_empty) (fun _ => idle_call) (fun _ => [])).
 Proof.
-  repeat split.
-  - left. reflexivity.
-  - unfold call_ok. simpl. intros H. inversion H.
-  - intros [H _]. discriminate H.
-  - intros s0 m0 [].
-  - intros c0 a0 q0 m0 H. discriminate H.
+  split; [left; reflexivity|]. split; [unfold call_ok; simpl; intros H; inversion H|].
+  split; [intros [H _]; discriminate H|]. split.
+  - constructor; simpl; [reflexivity|intros s0 m0 []|intros c0 a0 q0 m0 H; discriminate H].
   - intros [H _ _]. specialize (H 0%nat). discriminate H.
 Qed.
 
